@@ -143,8 +143,8 @@ class SetModel(explorer.Model):
         for name in ('ior', 'iand', 'isub', 'ixor'):
             ops.append(['iop', name, 'self', []])
             for kind in ('oset', 'qset', 'list', 'tuple', 'gen', 'duplist', 'dupgen'):
-                if kind in ('gen', 'dupgen') and name == 'iand':
-                    continue  # "s &= generator" consumes the generator in a membership test: not a set operand
+                # ("s &= generator": the operand is taken in as a whole before members are compared with it, as for every
+                #  other operator -- included since round 9, C17-17)
                 for e in self.operands:
                     if kind in ('duplist', 'dupgen') and not e:
                         continue
